@@ -1,5 +1,5 @@
 //@unit sm3
-//@serves C01 C03 C04 C05 C06 C09 C10 C15 C16 C17
+//@serves C01 C03 C04 C05 C06 C09 C10 C15 C16 C17 C20
 //@source gm-sm3/src/lib.rs
 //@export sm3_spec lemma_sm3_len
 //@section spec
